@@ -388,6 +388,10 @@ func (re *Regexp) findAllRunesIndex(runner *Runner, input []rune, startAt, n int
 		startAt = m.textpos
 		previousMatchLength = m.RuneLength
 	}
+	if len(out) == 0 {
+		// no match: nil, also when slots were preallocated for n > 0
+		return nil, nil
+	}
 	return out, nil
 }
 
